@@ -1,0 +1,50 @@
+//go:build verif
+// +build verif
+
+package bfe_server
+
+// Hook for the out-of-tree verification harness of property C47 (build tag verif).  Add-only.
+// It hands an upgrade request to a protocol handler the way conn.serve does: the REAL newConn (bufio pair
+// over liveSwitchReader/LimitedReader), the request read as conn.readRequest reads it (limit armed, then
+// lifted), and the REAL response (WriteHeader / Flush / Hijack of response.go) as ResponseWriter.
+// Routing, callbacks and session statistics of conn.serve are not involved in the tunnel and are left out.
+
+import (
+	"net"
+	"time"
+)
+
+import (
+	"github.com/bfenetworks/bfe/bfe_http"
+)
+
+// VerifC47ServeUpgrade reads the first request from rwc and, if check accepts it, calls handler with the
+// real *response.  It returns after the handler returns.
+func VerifC47ServeUpgrade(rwc net.Conn, check func(*bfe_http.Request) bool,
+	handler func(*bfe_http.Server, bfe_http.ResponseWriter, *bfe_http.Request)) error {
+	srv := new(BfeServer)
+	srv.BufioCache = NewBufioCache()
+	srv.MaxHeaderBytes = 1 << 20
+	srv.MaxHeaderUriBytes = 8 * 1024
+	srv.CloseNotifyCh = make(chan bool)
+	srv.GracefulShutdownTimeout = 3 * time.Second
+
+	c, err := newConn(rwc, srv)
+	if err != nil {
+		return err
+	}
+	// conn.readRequest, without the bfe_basic.Request wrapping
+	c.lr.N = int64(c.server.MaxHeaderBytes) + 4096
+	req, err := bfe_http.ReadRequest(c.buf.Reader, c.server.MaxHeaderUriBytes)
+	if err != nil {
+		return err
+	}
+	c.lr.N = noLimit
+	req.RemoteAddr = c.remoteAddr
+
+	w := newResponse(c, req)
+	if check(req) {
+		handler(&c.server.Server, w, req)
+	}
+	return nil
+}
